@@ -400,9 +400,23 @@ func (ex *Exec) applyContract(fr *Frame, c *Contract, names []string, args []Val
 	for k, v := range vars {
 		rvars[k] = v
 	}
+	resDyn := ex.ensuresDynTypes(c, tpkg)
 	for i := 0; i < sig.Results().Len(); i++ {
 		rv := sig.Results().At(i)
 		val := ex.freshVal("res", rv.Type(), st)
+		if sc, isSc := val.(Scalar); isSc && sc.T.Sort == SIface {
+			// an unconditional postcondition typeis(result, T) fixes the dynamic type: keep it syntactic (narrowing)
+			dt, ok := resDyn[fmt.Sprintf("result%d", i)]
+			if !ok && sig.Results().Len() == 1 {
+				dt, ok = resDyn["result"]
+			}
+			if !ok && rv.Name() != "" {
+				dt, ok = resDyn[rv.Name()]
+			}
+			if ok {
+				val = Scalar{MkIface(ex.vc.typeID(dt), IfVal(sc.T)), sc.Ty}
+			}
+		}
 		results = append(results, val)
 		rvars[fmt.Sprintf("result%d", i)] = val
 		if rv.Name() != "" && rv.Name() != "_" {
@@ -449,6 +463,37 @@ func (ex *Exec) applyContract(fr *Frame, c *Contract, names []string, args []Val
 		ex.vc.assume(Implies(reach, g))
 	}
 	return resultVal(results)
+}
+
+// ensuresDynTypes: results whose dynamic type an unconditional top-level postcondition conjunct typeis(r, T) fixes.
+func (ex *Exec) ensuresDynTypes(c *Contract, pkg *types.Package) map[string]types.Type {
+	out := map[string]types.Type{}
+	var walk func(e Expr)
+	walk = func(e Expr) {
+		switch x := e.(type) {
+		case EBinary:
+			if x.Op == "&&" {
+				walk(x.X)
+				walk(x.Y)
+			}
+		case ECall:
+			if id, ok := x.Fun.(EIdent); ok && id.Name == "typeis" && len(x.Args) == 2 {
+				if v, ok := x.Args[0].(EIdent); ok {
+					if te, err := exprToType(x.Args[1]); err == nil {
+						if t, err := ex.prog.lookupType(te, pkg); err == nil {
+							out[v.Name] = t
+						}
+					}
+				}
+			}
+		}
+	}
+	for _, e := range c.Ensures {
+		if e.E != nil {
+			walk(e.E)
+		}
+	}
+	return out
 }
 
 // splitTop splits s at sep outside brackets.
